@@ -257,9 +257,19 @@ def run(ctx):
             for v in f.find("Var", root=body):
                 if f.nodes[v]["name"] in ("wid",) or (f.ch(v) and "->wid" in f.canon(f.ch(v)[0])):
                     pass
-            wids = [s for s in paths.stores(f, body) if s["rhs"] is not None and f.canon(s["rhs"]).endswith("->wid")]
-            for s in wids:
-                ctx.check(o8, f.canon(s["rhs"]) == "fsg_history_entry_get(%s->history, %s)->fsglink->wid" % (S(f), walk), k + ":word", f.where(s["node"]), "word is taken from `%s`, not from the link of the entry on the path" % f.canon(s["rhs"]))
+            # as values at the start of the step (symx.loop_paths): the walk index may be moved on before
+            # or after the word is looked at
+            from .. import symx, lin as _lin8
+            wantw = "(fsg_history_entry_get(%s->history, %s))->fsglink->wid" % (S(f), walk)
+            gotw = set()
+            for pt in symx.loop_paths(f, w, P):
+                for (pth, v_, n_) in pt.stores:
+                    vs_ = _lin8.p_str(v_)
+                    if pth == "wid" or (vs_.endswith("->wid") and pth not in (walk,)):
+                        gotw.add(vs_)
+            if gotw:
+                okw = any(gotw == {"(fsg_history_entry_get(%s->history, %s))->fsglink->wid" % (nm_, walk)} for nm_ in (S(f), "fsgs", "search"))
+                ctx.check(o8, okw, k + ":word", f.where(w), "word is taken from `%s`, not from the link of the entry on the path" % sorted(gotw))
             hs = [s for s in paths.stores(f, body) if s["kind"] == "Subscript" and "hist" in s["path"]]
             for s in hs:
                 ctx.check(o8, f.canon(s["rhs"], subst=False) == en, k + ":record", f.where(s["node"]), "segment list records `%s`, not the entry on the path" % f.canon(s["rhs"], subst=False))
